@@ -335,7 +335,7 @@ def impl(case):
     for line in case["lines"]:
         t = line.split()
         cmd = t[1]
-        signal.setitimer(signal.ITIMER_REAL, 5.0)     # a literal that takes seconds is a hang (replace loop not advancing)
+        signal.setitimer(signal.ITIMER_REAL, 1.0)     # a literal that takes a second is a hang (replace loop not advancing)
         try:
             if cmd == "cstr":
                 out.append(canon(_const_triple(escape_string(B(t[2]).decode(get_encoding())))))
